@@ -73,7 +73,46 @@ Definition fa_apply (l : list B) (o : fop) : list B :=
 
 Definition fa_run (ops : list fop) : list B := fold_left fa_apply ops [].
 
+(* ---- observations: everything that can be read off the array.  They are functions of the
+   array alone: reading does not change it, and reading twice gives the same ---- *)
+
+Inductive fobs : Type :=
+| FOLen
+| FOGet (off : nat)
+| FOSlice (a b : nat)
+| FOWord (off : nat)
+| FOAll                                   (* the whole content *)
+| FOItem (start stop : option nat).       (* a[start:stop] with optional bounds *)
+
+Inductive fres : Type := FRLen (n : nat) | FRBytes (l : list B).
+
+Definition fa_observe (l : list B) (q : fobs) : fres :=
+  match q with
+  | FOLen => FRLen (length l)
+  | FOGet off => FRBytes [fa_get l off]
+  | FOSlice a b => FRBytes (fa_slice l a b)
+  | FOWord off => FRBytes (fa_word l off)
+  | FOAll => FRBytes l
+  | FOItem start stop => FRBytes (fa_getitem l start stop)
+  end.
+
+(* a history in which writes and observations are interleaved in any way: the list of what
+   the observations return *)
+Inductive fev : Type := FEOp (o : fop) | FEObs (q : fobs).
+
+Fixpoint fa_trace (l : list B) (es : list fev) : list fres :=
+  match es with
+  | [] => []
+  | FEOp o :: r => fa_trace (fa_apply l o) r
+  | FEObs q :: r => fa_observe l q :: fa_trace l r
+  end.
+
 End FlatArray.
+
+Arguments FRLen {B}.
+Arguments FRBytes {B}.
+Arguments FEOp {B}.
+Arguments FEObs {B}.
 
 Arguments FAppend {B}.
 Arguments FSetByte {B}.
